@@ -89,6 +89,12 @@ class Pump(object):
                 return
             ln = lines[self.answered].decode('ascii')
             self.answered += 1
+            if ln.startswith('GETINFO ip-to-country/'):
+                # GeoIP look-ups that txtorcon's own log statements trigger when they format a relay (only seen by the unstripped
+                # replay pass); answered, not part of what the property talks about
+                self.p.lineReceived(('250-' + ln[8:] + '=??').encode('ascii'))
+                self.p.lineReceived(b'250 OK')
+                continue
             self.lines.append(ln)
             self.p.lineReceived(b'250 OK')
 
